@@ -90,6 +90,53 @@ impl C03 {
         }
         out
     }
+    /// A sequence of recoveries on a fresh thread with an instance of its own. codes: 0 two shares of secret A,
+    /// 1 two shares of secret B, 2 the same share of A twice (no secret), 3 shares of different epochs (no output),
+    /// 4 a truncated first message (refused), 5 two shares of A in another epoch, in the other order. Every recovery
+    /// is judged as when made alone.
+    fn seq(&self, codes: &[u8]) -> Vec<Discrepancy> {
+        let case = json!({"kind":"seq","calls":codes});
+        let codes: Vec<u8> = codes.to_vec();
+        std::thread::spawn(move || {
+            let (sa, sb) = (dec("1234567890123456789012345678901234567890"), p() - big(7));
+            let (xa, xb) = (big(11), pow2(200) + big(13));
+            let first = with_rln(|rln| {
+                for (k, c) in codes.iter().enumerate() {
+                    let d = match c {
+                        0 => C03.pair(rln, &sa, &big(5), &big(1), &xa, &xb, "sequence"),
+                        1 => C03.pair(rln, &sb, &big(5), &big(1), &xa, &xb, "sequence"),
+                        2 => C03.pair(rln, &sa, &big(5), &big(1), &xa, &xa, "sequence"),
+                        3 => C03.crafted(rln, "different-external-nullifier"),
+                        4 => {
+                            match cheap_message(&inputs(&sa, &big(5), &big(1), &xa)) {
+                                Ok(m) => match recover(rln, &m[..100], &m) {
+                                    Rec::Panic(pn) => vec![Discrepancy { key: "C03/sequence/truncated/panic".into(), case: json!({}), detail: pn }],
+                                    Rec::Bytes(b) if !b.is_empty() => vec![Discrepancy { key: "C03/sequence/truncated/reports-a-secret".into(), case: json!({}), detail: "a truncated message yields a secret".into() }],
+                                    _ => vec![],
+                                },
+                                Err(e) => vec![Discrepancy { key: "C03/sequence/values/error".into(), case: json!({}), detail: e }],
+                            }
+                        }
+                        _ => C03.pair(rln, &sa, &(p() - big(1)), &big(99), &xb, &xa, "sequence"),
+                    };
+                    if let Some(x) = d.into_iter().next() {
+                        return Some((k, x));
+                    }
+                }
+                None
+            });
+            match first {
+                None => vec![],
+                Some((k, d)) => {
+                    if d.key.ends_with("/panic") {
+                        discard_rln();
+                    }
+                    let tail: Vec<&str> = d.key.split('/').skip(2).collect();
+                    vec![Discrepancy { key: format!("C03/after-other-calls/{}", tail.join("/")), case, detail: format!("recovery number {k} of the sequence: {}", d.detail) }]
+                }
+            }
+        }).join().unwrap_or_default()
+    }
     /// crafted (x,y) pairs and cross-nullifier cases
     fn crafted(&self, rln: &RLN, which: &str) -> Vec<Discrepancy> {
         let mut out = vec![];
@@ -212,6 +259,7 @@ impl Prop for C03 {
         match case["kind"].as_str().unwrap_or("") {
             "pair" => with_rln(|rln| self.pair(rln, &bdec(&case["secret"]), &bdec(&case["ext"]), &bdec(&case["id"]), &bdec(&case["x1"]), &bdec(&case["x2"]), case["how"].as_str().unwrap_or("replay"))),
             "crafted" => with_rln(|rln| self.crafted(rln, case["which"].as_str().unwrap_or(""))),
+            "seq" => self.seq(&case["calls"].as_array().cloned().unwrap_or_default().iter().map(|x| x.as_u64().unwrap_or(0) as u8).collect::<Vec<u8>>()),
             "real" => match Req::from_json(&case["req"]) {
                 Some(r) => {
                     let oe = case["other_ext"].as_str().map(|_| bdec(&case["other_ext"]));
@@ -318,11 +366,34 @@ impl Prop for C03 {
             findings.report_all(r);
         }
         evals += reals.len();
+        // recovery sequences on a fresh thread
+        let mut seqs: Vec<Vec<u8>> = vec![];
+        {
+            let mut cur: Vec<Vec<u8>> = vec![vec![]];
+            for _ in 0..(if q { 3 } else { 4 }) {
+                let mut next = vec![];
+                for h in &cur {
+                    for c in 0u8..6 {
+                        let mut n = h.clone();
+                        n.push(c);
+                        next.push(n);
+                    }
+                }
+                seqs.extend(next.iter().cloned());
+                cur = next;
+            }
+        }
+        let sres = par_map(&seqs, ncpu(), |_, sq| self.seq(sq));
+        for r in sres {
+            findings.report_all(r);
+        }
+        evals += seqs.len();
+        ev.set("call_sequences_on_one_thread", json!(seqs.len()));
         ev.set("evaluations", json!(evals));
         ev.set("distinct_nontrivial", json!(evals - 1));
         ev.set("real_message_pairs", json!(reals.len()));
         ev.set("exhaustive", json!(true));
-        ev.set("rule", json!("full product {secret: F* + random} x {ext: 0,1,p-1,random} x {id: 0,1,limit-1} x ordered pairs of x over the hashes of 5 signals (incl. equal), and ordered pairs of x over F* (incl. 0, p-1, equal) for a subset of secrets: public values by proof_values_from_witness, nullifier equality, RLN::recover_id_secret on the two 288-byte encodings must return exactly the secret (x1 != x2) or an error/empty output (x1 == x2); crafted degenerate share pairs; pairwise-distinct nullifiers across (ext, id); real generate_rln_proof message pairs incl. cross-epoch and cross-id, and pairs of 136..408-byte signals differing in one byte of the first / an inner / the last hash block; every tuple is distinct"));
+        ev.set("rule", json!("full product {secret: F* + random} x {ext: 0,1,p-1,random} x {id: 0,1,limit-1} x ordered pairs of x over the hashes of 5 signals (incl. equal), and ordered pairs of x over F* (incl. 0, p-1, equal) for a subset of secrets: public values by proof_values_from_witness, nullifier equality, RLN::recover_id_secret on the two 288-byte encodings must return exactly the secret (x1 != x2) or an error/empty output (x1 == x2); crafted degenerate share pairs; pairwise-distinct nullifiers across (ext, id); real generate_rln_proof message pairs incl. cross-epoch and cross-id, and pairs of 136..408-byte signals differing in one byte of the first / an inner / the last hash block; every sequence of up to 3 (thorough 4) recoveries over {shares of A, shares of B, one share twice, different epochs, truncated message, A in another epoch} on a fresh thread and instance, each judged as when made alone; every tuple is distinct"));
         ev.sample(json!({"secret": "p-1", "ext": "0", "id": "99", "x1": "H('')", "x2": "H('a'*137)"}));
         ev.sample(json!({"crafted": "same-x-different-y"}));
         ev.sample(json!({"real": reals[4].0.to_json()}));
